@@ -380,7 +380,14 @@ func vfC17Oracle(in *vfGWInst, evFull string, pre, post *vfSnap) {
 			in.count("ihave_cap_hit")
 		}
 		m.asked[x] += expect
-		if len(got) != expect {
+		gotN := len(got)
+		if d := post.IAsked[x] - pre.IAsked[x]; d > gotN {
+			// the request was decided in this step but is still queued: our stream to the peer is being re-opened
+			// (the second death of a stream in a row is re-opened after a delay)
+			gotN = d
+			in.count("iwant_decided_but_still_queued")
+		}
+		if gotN != expect {
 			in.bad("c17:iwant-count", "IHAVE %s from %s: node asked for %v, want %d id(s) of the unseen %v (IHAVEs this heartbeat %d/%d, asked so far %d/%d)", f[3], x, got, expect, unseen, m.ihaveMsgs[x], params.MaxIHaveMessages, m.asked[x]-expect, params.MaxIHaveLength)
 		}
 		for _, id := range got {
@@ -601,7 +608,8 @@ func vfC17Scenarios(thorough bool) []*vfGWScenario {
 	mk("window", []string{"pub:b:m1", "pub:c:m2", "pub:b:m3", "lpub:t:p1", "hb", "iwant:a:m1", "iwant:d:m1", "iwant:a:m1+m2", "score:a:-1.5", "score:a:-1", "idw:a:m1"})
 	mk("ihave-caps", []string{"ihave:a:t:m1", "ihave:a:t:m2+m3", "ihave:a:t:m1+m2+m3", "ihave:d:t:m5", "ihave:a:t:m6", "pub:b:m1", "hb", "score:a:-1.5", "score:a:-1", "leave:t"})
 	// the budget of requested IDs is per peer and heartbeat, across as many IHAVEs as are honoured
-	mk("ihave-budget", []string{"ihave:a:t:m1", "ihave:a:t:m2", "ihave:a:t:m3", "ihave:a:t:m5", "ihave:a:t:m5+m6", "ihave:d:t:m6", "hb"})
+	// (... and across re-opened streams: a peer that resets our stream to it gets a new stream, not a new budget)
+	mk("ihave-budget", []string{"ihave:a:t:m1", "ihave:a:t:m2", "ihave:a:t:m3", "ihave:a:t:m5", "ihave:a:t:m5+m6", "ihave:d:t:m6", "hb", "outreset:a"})
 	out[len(out)-1].Cfg.Params = "d2ih"
 	out[len(out)-1].Depth = d + 1
 	mk("idontwant", []string{"idw:b:m1", "idw:b:m2", "idw:b:m1+m2+m3", "idw:b:m1|m2|m3", "idw:b:m5+m1|m6", "idw:a:m3", "pub:c:m1", "pub:c:s1", "pub:a:m2", "hb", "prune:b:t", "graft:a:t"})
